@@ -33,6 +33,12 @@ def cells(tier):
     for size in [1, 2]:
         sc = scen(pool(size), [[A("A", 2)], [cancel(rid("A", 1)), A("B", 1)], [cancel(rid("A", 0))]], outcomes=["ret"], ecb="plain", ccb="plain")
         out.append(cell(f"s{size} A2|cancelA1,B1|cancelA0 (early cancels)", sc, MON))
+    for size, nc in [(1, 1), (2, 2), ("inf", 2)]:
+        # end/cancel callbacks that suspend while further tasks of the same call end
+        sc = scen(pool(size), [[M("M", 3, nc)]], outcomes=["ret"], ecb="slow", ccb="plain", slow_ids=[0, 1])
+        out.append(cell(f"s{size} M3/{nc} slow ecb 0,1", sc, MON))
+        sc = scen(pool(size), [[A("A", 3)], [cancel(rid("A", 1))]], outcomes=["ret"], ecb="slow", ccb="slow", slow_ids=[0, 1])
+        out.append(cell(f"s{size} A3 cancelA1 slow ecb/ccb 0,1", sc, MON))
     sc = scen(pool(2, "SimpleTaskPool", ecb="plain", ccb="plain"), [[S("S", 2)], [["stop", 1], S("T", 1)]], outcomes=["ret"])
     out.append(cell("simple s2 S2|stop1,T1 (early stop)", sc, MON))
     sc = scen([pool(1), pool(2)], [[A("A", 1), ["gac"]], [A("B", 1, p=1)], [["new_pool"], A("C", 1, p=2)]], outcomes=["ret"])
